@@ -93,8 +93,9 @@ class TLab(Lab):
         'tail'          - no *new* notification delivery (AutoDetachObserver.on_* activation that was not on the
                           stack when dispose() was called) encloses it: it is the tail of a handler activation that
                           was already running when dispose() was called from inside a subscriber callback;
-        'sync-emission' - the new delivery comes out of a harness source's subscribe() call (a source emitting
-                          synchronously inside subscribe cannot be stopped before it returns a handle);
+        'sync-emission' - the new delivery comes out of a subscribe() call: of a harness source (a source emitting
+                          synchronously inside subscribe cannot be stopped before it returns a handle) or of any
+                          source whose subscribe() was begun by such a tail;
         unclassified    - a producer that was already running delivered a further notification, or the event
                           happened in a later scheduled action."""
         w = self.watch
@@ -105,10 +106,15 @@ class TLab(Lab):
         new_delivery = False
         while f is not None:
             c = f.f_code
-            if c.co_name == "_subscribe_core" and isinstance(f.f_locals.get("self"), _Logged):
-                if new_delivery:
+            if c.co_name == "_subscribe_core":
+                # a source emitting synchronously inside subscribe(): a harness source whose subscribe() is still
+                # running (no handle exists yet), or any subscribe() begun by a handler tail after dispose (e.g. a
+                # BehaviorSubject/ReplaySubject replaying to the operator that window() subscribes after emitting)
+                if new_delivery and (id(f) not in known or isinstance(f.f_locals.get("self"), _Logged)):
                     self.continuations[key] = "sync-emission"
                     return
+                if id(f) in known:
+                    break
             elif id(f) in known:
                 break
             elif c.co_name in _DELIVERY and c.co_filename.endswith(_ADO):
